@@ -238,7 +238,8 @@ def rule_writers(ctx):
         ev = run(ctx, fi, mode='join')
         puts = [e for p in ev.paths for e in p.calls('put')]
         if not puts:
-            ctx.violated('R3', fi, what + ': put', '%s must write through put(..., cast=True)' % what)
+            # no put() at all: the cells are written some other way (raw array assignment, another helper) - the widening is then not visible to this clause
+            ctx.undecide('R3', '%s no longer writes through put(): the dtype promotion of the fill is done in a form the rule does not know' % what)
             continue
         bad = [e for e in puts if T.kw(e.a, 'cast') != T.CONST_TRUE]
         if bad:
